@@ -73,20 +73,23 @@ def run(ctx):
     exe = ctx.build("d_arith")
     quick = ctx.tier == "quick"
     # ---- specification leg
-    ctx.tlc_mc("Arith.tla", "MC_Arith.cfg", spec_dir=sd, require_actions=["Step"])
-    ctx.tlc_mc("Arith.tla", "MC_Arith_small.cfg", spec_dir=sd, require_actions=["Step"])
-    if not quick:
-        ctx.tlc_mc("Arith.tla", "MC_Arith_b.cfg", spec_dir=sd, require_actions=["Step"],
-                   timeout=1500)
-    for m in ("MC_Arith_mutant_alignup.cfg", "MC_Arith_mutant_delta.cfg",
-              "MC_Arith_mutant_limbs.cfg"):
-        ctx.tlc_mc("Arith.tla", m, spec_dir=sd, expect_violation=True)
+    # (VERIF_ARITH_SKIP_MC=1 skips it: only for mutation experiments on the code, which the
+    # specification leg does not depend on)
+    if not os.environ.get("VERIF_ARITH_SKIP_MC"):
+        ctx.tlc_mc("Arith.tla", "MC_Arith.cfg", spec_dir=sd, require_actions=["Step"])
+        ctx.tlc_mc("Arith.tla", "MC_Arith_small.cfg", spec_dir=sd, require_actions=["Step"])
+        if not quick:
+            ctx.tlc_mc("Arith.tla", "MC_Arith_b.cfg", spec_dir=sd, require_actions=["Step"],
+                       timeout=1500)
+        for m in ("MC_Arith_mutant_alignup.cfg", "MC_Arith_mutant_delta.cfg",
+                  "MC_Arith_mutant_limbs.cfg"):
+            ctx.tlc_mc("Arith.tla", m, spec_dir=sd, expect_violation=True)
     # ---- conformance leg
     out = os.path.join(ctx.work, "arith.ndjson")
     args = [exe, "arith", "--out", out]
     if not quick:
-        args += ["--lowk", "0,1,2,3,4,5,6,7,8,9,10,11,12", "--highs", "3", "--rand", "96",
-                 "--dense", "--aahighs", "3", "--span", "2048", "--offs", "12", "--wspan", "256",
+        args += ["--lowk", "0,1,2,3,4,5,6,7,8,9,10,11,12", "--highs", "3", "--rand", "128",
+                 "--dense", "--aahighs", "3", "--span", "2048", "--offs", "12", "--wspan", "128",
                  "--morevms"]
     rc, o = ctx.run(args, timeout=900)
     if rc != 0:
